@@ -626,6 +626,34 @@ def dask_ops(sched_name, nw):
         res.append(c18.rows(read_parquet_dask(w).compute()))
     return tuple(res)
 
+import time
+from fsspec.implementations.local import LocalFileSystem
+class SlowFS(LocalFileSystem):
+    # a filesystem on which the files of ONE dataset answer later than the others (delays perturb completion order)
+    cachable = False
+    def __init__(self, slow=None, **kw):
+        super().__init__(**kw)
+        self.slow = slow
+    def _open(self, path, mode="rb", **kw):
+        if self.slow and self.slow in str(path):
+            time.sleep(0.03)
+        return super()._open(path, mode=mode, **kw)
+
+_multi = []
+def multi_read(slow):
+    from spatialpandas.io import read_parquet_dask
+    if not _multi:
+        a, b, c = (os.path.join(scratch, "free-m%s.parq" % x) for x in "ABC")
+        dd.from_pandas(P, npartitions=3).to_parquet(a)
+        dd.from_pandas(P.iloc[:3], npartitions=2).to_parquet(b)
+        dd.from_pandas(P.iloc[4:], npartitions=1).to_parquet(c)
+        _multi.extend([a, b, c])
+    r = read_parquet_dask(list(_multi), filesystem=SlowFS(slow))
+    g = r.geometry
+    return (tuple(map(tuple, np.nan_to_num(g.partition_bounds.values, nan=-9).tolist())),
+            c18.rows(r.cx[-1:4, -1:8].compute(scheduler="synchronous")),
+            c18.rows(read_parquet_dask(list(_multi), filesystem=SlowFS(slow), bounds=(-1, -1, 4, 8)).compute(scheduler="synchronous")))
+
 import math
 def big_shapes():
     from spatialpandas.geometry import PolygonArray, LineArray, MultiPolygonArray
@@ -658,6 +686,11 @@ def measures():
 numba.set_num_threads(1)
 ref_measures = measures()
 ref_dask = dask_ops("synchronous", 1)
+ref_multi = multi_read(None)
+for slow in ("free-mA", "free-mB", "free-mC", None):
+    out["runs"] += 1
+    if multi_read(slow) != ref_multi:
+        out["bad"].append({"what": "read_parquet_dask_depends_on_read_latency", "slow_dataset": slow})
 grid_nt = [1, 2, 4, 16]
 grid_nw = [1, 2, 4, 16] if tier == "thorough" else [2, 16]
 for nt in grid_nt:
